@@ -109,10 +109,10 @@ func (g *gen) printSortFunc(typ *types.Slice) error {
 
 	switch ttyp := etyp.Underlying().(type) {
 	case *types.Basic:
-		switch ttyp.Kind() {
-		case types.Complex64, types.Complex128, types.Bool:
-			p.P(g.sortPkg() + ".Slice(list, func(i, j int) bool { return " + g.compare.GetFuncName(ttyp, ttyp) + "(list[i], list[j]) < 0 })")
-		default:
+		if ttyp.Info()&types.IsOrdered == 0 {
+			// no < operator (bool, complex, unsafe.Pointer): order by the derived compare function of the element type itself
+			p.P(g.sortPkg() + ".Slice(list, func(i, j int) bool { return " + g.compare.GetFuncName(etyp, etyp) + "(list[i], list[j]) < 0 })")
+		} else {
 			p.P(g.sortPkg() + ".Slice(list, func(i, j int) bool { return list[i] < list[j] })")
 		}
 	case *types.Pointer, *types.Struct, *types.Slice, *types.Array, *types.Map:
